@@ -470,6 +470,19 @@ func Check(c Case) ([]evid.Violation, info) {
 			}
 			cat = append(cat, chunk...)
 		}
+		if len(body) < len(full) {
+			// only generated for gzip uploads: a gzip stream that is cut short is
+			// detectably incomplete, so the handler must see a prefix of the data
+			// and then an error, never a clean end of stream
+			in.truncInside = true
+			if !bytes.HasPrefix(data, cat) {
+				return fail("upload", "bytes-differ", "truncated gzip upload: received bytes are not a prefix of the upload")
+			}
+			if log.termErr == nil || log.termErr == io.EOF {
+				return fail("truncation", "truncation-reported-as-eof", "gzip upload cut at %d of %d compressed bytes: handler saw %d of %d bytes and then %v", len(body), len(full), len(cat), len(data), log.termErr)
+			}
+			return vs, in
+		}
 		if !bytes.Equal(cat, data) {
 			return fail("upload", "bytes-differ", "upload of %d bytes (limit %d) received as %d bytes in %d chunks; terminal %v", len(data), c.Limit, len(cat), len(log.msgs), log.termErr)
 		}
@@ -691,7 +704,7 @@ func genCase(t *rapid.T) Case {
 	}
 	switch c.Shape {
 	case "upload":
-		c.Limit = rapid.SampledFrom([]int{8, 9, 16, 64, 256}).Draw(t, "limit")
+		c.Limit = rapid.SampledFrom([]int{8, 9, 16, 64, 256, 4096}).Draw(t, "limit")
 		n := rapid.IntRange(0, 5).Draw(t, "mult")*c.Limit + rapid.IntRange(-1, 1).Draw(t, "delta")
 		if n < 0 {
 			n = 0
@@ -700,8 +713,10 @@ func genCase(t *rapid.T) Case {
 			n = rapid.IntRange(0, 4*c.Limit).Draw(t, "nfree")
 		}
 		b := make([]byte, n)
+		x := uint32(n*2654435761 + 12345)
 		for i := range b {
-			b[i] = byte(i*31 + 7)
+			x = x*1664525 + 1013904223
+			b[i] = byte(x >> 24) & 0x3f // mildly compressible
 		}
 		c.Msgs = [][]byte{b}
 		c.Replies = [][]byte{genMsg(t, "reply")}
@@ -751,6 +766,9 @@ func genCase(t *rapid.T) Case {
 		c.EOFWithLast = rapid.Bool().Draw(t, "eofWithLast")
 		if c.Shape != "upload" && c.Shape != "server" && rapid.IntRange(0, 3).Draw(t, "truncate") == 0 {
 			c.TruncateAt = rapid.IntRange(0, total).Draw(t, "truncAt")
+		}
+		if c.Shape == "upload" && c.Gzip && rapid.IntRange(0, 1).Draw(t, "truncateUpload") == 0 {
+			c.TruncateAt = rapid.IntRange(11, 11+len(c.Msgs[0])).Draw(t, "truncAtUpload") // past the 10-byte gzip header
 		}
 	}
 	return c
